@@ -31,6 +31,7 @@ ASSUMPTIONS = [
 REQUIRED_COUNTERS = ["rate_comparisons_1d", "intensity_checks", "tiling_checks", "nd_cell_comparisons", "nd_row_sums",
                      "grid_init_postconditions", "infinite_variation_copula_chains"]
 MIN_NONTRIVIAL = {"quick": 60, "thorough": 400}
+THOROUGH_ROUNDS = 5      # the thorough tier runs the generators this many times (different seeds)
 SHARD_TIMEOUT = {"quick": 900, "thorough": 7200}
 
 
